@@ -459,6 +459,11 @@ fn slice(tier: Tier) -> Vec<(String, PProblem)> {
         let step = (problems.len() / per.clamp(1, problems.len().max(1))).max(1);
         out.extend(problems.into_iter().step_by(step).take(per).map(|p| (name.to_string(), p)));
     }
+    // recharge stations, required breaks, time-dependent matrices
+    let step = tier.pick(6, 2);
+    out.extend(family_recharge().into_iter().step_by(step).map(|p| ("recharge".to_string(), p)));
+    out.extend(family_reqbreak().into_iter().step_by(step * 2).map(|p| ("reqbreak".to_string(), p)));
+    out.extend(family_timedep().into_iter().step_by(step * 2).map(|p| ("timedep".to_string(), p)));
     out
 }
 
